@@ -25,6 +25,9 @@ pub enum Role {
     /// a plain account that receives an EIP-7702 delegation inside the block and is then called
     /// and inspected (its code is versioned apart from its balance history)
     DelegatedInBlock,
+    /// exists in the database as an *empty* account (nonce 0, balance 0, no code): a zero reward
+    /// still touches it, and a touched empty account is deleted from Spurious Dragon on
+    EmptyExisting,
 }
 
 #[derive(Clone, Copy, Debug, PartialEq, Eq)]
@@ -43,7 +46,7 @@ fn created_addr() -> Address {
 
 pub fn beneficiary_of(role: Role) -> Address {
     match role {
-        Role::Absent => fresh(7),
+        Role::Absent | Role::EmptyExisting => fresh(7),
         Role::PlainEoa | Role::NearOverflow | Role::DelegatedInBlock => eoa(7),
         Role::Sender => eoa(0),
         Role::Recipient => eoa(1),
@@ -59,6 +62,9 @@ pub fn world(role: Role) -> MemDb {
     }
     match role {
         Role::PlainEoa | Role::DelegatedInBlock => db.fund(eoa(7), U256::from(5u64), 0),
+        Role::EmptyExisting => {
+            db.accounts.insert(fresh(7), AccountData::default());
+        }
         Role::NearOverflow => db.fund(eoa(7), U256::MAX - U256::from(100_000u64), 0),
         _ => {}
     }
@@ -119,7 +125,7 @@ pub fn templates(role: Role, f: Fee) -> Vec<Template> {
             v.push(tpl("call(coinbase,1)(e1)", eoa(1), &["coinbase"], move |n| fee(call(eoa(1), n, cb, &[word(1)]), f)));
             v.push(tpl("probe(coinbase)(e3)", eoa(3), &["coinbase"], move |n| fee(call(eoa(3), n, contract(10), &[word_addr(cb)]), f)));
         }
-        Role::Absent | Role::PlainEoa | Role::NearOverflow => {
+        Role::Absent | Role::PlainEoa | Role::NearOverflow | Role::EmptyExisting => {
             v.push(tpl("send-to-coinbase(e0)", eoa(0), &["coinbase"], move |n| fee(transfer(eoa(0), n, cb, 9), f)))
         }
     }
@@ -142,7 +148,7 @@ pub fn expressible(role: Role, f: Fee, spec: SpecId) -> bool {
     }
 }
 
-pub const ROLES: [Role; 9] = [
+pub const ROLES: [Role; 10] = [
     Role::Absent,
     Role::PlainEoa,
     Role::Sender,
@@ -152,6 +158,7 @@ pub const ROLES: [Role; 9] = [
     Role::SelfDestructing,
     Role::NearOverflow,
     Role::DelegatedInBlock,
+    Role::EmptyExisting,
 ];
 
 pub fn jobs(tier: Tier) -> Vec<Job> {
@@ -249,6 +256,25 @@ pub fn jobs(tier: Tier) -> Vec<Job> {
                     case.env.beneficiary = beneficiary_of(role);
                     v.push(pipeline_job("c07-replayed", &case, &RunCfg::parallel(2), COARSE, if tier == Tier::Quick { 1 } else { 2 }, false));
                 }
+            }
+        }
+    }
+    // reward chains longer than the sweeps reach: three and four deferred credits, then readers
+    for role in [Role::Absent, Role::PlainEoa, Role::NearOverflow, Role::EmptyExisting] {
+        for f in [Fee::Tip3, Fee::Tip0] {
+            let db = world(role);
+            let templates = templates(role, f);
+            let pick = |l: &str| templates.iter().position(|t| t.label == l).unwrap();
+            for labels in [
+                vec!["pay(e2>e3)", "pay-incr(e3)", "pay(e2>e3)", "read-coinbase(e1)"],
+                vec!["pay(e2>e3)", "pay-incr(e3)", "pay(e2>e3)", "pay-incr(e3)", "read-coinbase-hash(e0)", "read-coinbase(e1)"],
+            ] {
+                let seq: Vec<usize> = labels.iter().map(|l| pick(l)).collect();
+                let name = format!("c07c:{role:?}:{f:?}");
+                let mut case = build_case(&name, SpecId::CANCUN, &db, &templates, &seq).unwrap();
+                case.env.beneficiary = beneficiary_of(role);
+                v.push(pipeline_job("c07-chain", &case, &RunCfg::parallel(2), COARSE, if tier == Tier::Quick { 1 } else { 2 }, false));
+                v.push(pipeline_job("c07-chain", &case, &RunCfg::parallel(3), COARSE, 1, false));
             }
         }
     }
